@@ -179,6 +179,14 @@ theorem fieldVal_congr (g : Bool) {get₁ get₂ : String → Option J} {n : Str
   unfold fieldVal
   rw [h]
 
+/-! ### the historical composition (before the repair of F09), kept to show why no hash function could have saved it -/
+
+/-- combine the hashes of the VALUES of the listed properties with one binary operation
+    (`hash_t::operator^` historically); the property NAMES do not enter -/
+def valueFoldKey {κ : Type} (op : κ → κ → κ) (h : Option J → κ) (init : κ) (fields : List String)
+    (c : Config) : κ :=
+  fields.foldl (fun acc n => op acc (h (c.get n))) init
+
 /-! ### the kernel key -/
 
 variable {κ σ : Type}
